@@ -63,23 +63,46 @@ FileOf(dir, q, slot, arch, shift) ==
         wbits  |-> 9 + ((qq \div 2) % 7),
         zlevel |-> Nth(<<6, 1, 9, 3>>, qq \div 4),
         zstrat |-> Nth(<<"default", "filtered", "default", "rle", "huffman", "default", "fixed">>, qq \div 3),
-        bzlevel |-> 1 + ((qq \div 3) % 9) ]
+        bzlevel |-> 1 + ((qq \div 3) % 9),
+        \* direction 2: the method byte is a property of the SECTOR, not of the file: "alt" = consecutive compressed sectors of one
+        \* file alternate between zlib and bzip2 (starting with the file's method); "same" = one method for all sectors
+        secmeth |-> IF dir = 2 /\ meth # "none" /\ (qq \div 2) % 2 = 0 THEN "alt" ELSE "same" ]
 
 ArchiveOf(dir, arch, q0) ==
   LET shift == (arch \div 2) % 4
       nf    == FilesPerArchive[shift + 1]
-      \* direction 2 also writes V3 headers (68 bytes) over classic tables, HET/BET positions 0
-      ver   == IF dir = 2 /\ arch % 8 \in {2, 5} THEN 2 ELSE arch % 2
+      \* growth round 4: V3 (ver 2) and V4 (ver 3) archives with HET/BET tables in 1/4 of the archives of BOTH directions
+      \* (the library's builder always writes them for V3/V4; the reference writer also writes V3/V4 headers over classic
+      \* tables only, and HET/BET-only archives); the seed rotates which archives these are
+      a8    == arch % 8
+      ver   == IF a8 = 3 THEN 2 ELSE IF a8 = 6 THEN 3
+               ELSE IF dir = 2 /\ a8 \in {2, 5} THEN (IF arch % 16 = 13 THEN 3 ELSE 2) ELSE arch % 2
+      hetbet == a8 \in {3, 6}
   IN  [ id    |-> arch, dir |-> dir, ver |-> ver, shift |-> shift,
         \* direction 2 only (the reference writer's free choices)
         crc   |-> (arch \div 7) % 3 = 1,                          \* direction 1: ArchiveBuilder::generate_crcs(true)
         roomy |-> (arch \div 8) % 2 = 0,
+        \* direction 2: byte size of the hash table relative to the archive's offset in the file: "beyond" = the table is larger than
+        \* the pre-archive data in front of the header (>= 64 entries behind 512 bytes, >= 128 behind 1024; 64 at offset 0)
+        htclass |-> IF (arch \div 5) % 2 = 1 /\ (arch \div 7) % 2 = 0 THEN "beyond" ELSE "small",
         ndel  |-> (arch \div 3) % 3,
         hibt  |-> ver >= 1 /\ (arch \div 4) % 2 = 0,
         prefix |-> Nth(<<0, 512, 1024, 0>>, arch \div 5),          \* bytes before the MPQ header
         userdata |-> (arch \div 5) % 4 = 2,                      \* ... starting with a user data header 'MPQ\x1B'
-        twin  |-> (arch \div 3) % 4 = 1,                          \* a second entry for file 1 with locale 0x409, earlier in the probe chain
+        \* a second entry for file 1 with locale 0x409, earlier in the probe chain (HET/BET tables carry no locale: not there)
+        twin  |-> (arch \div 3) % 4 = 1 /\ ver < 2,
         listfile |-> Nth(<<"zlib", "none", "none">>, arch),
+        hetbet |-> hetbet,
+        \* direction 2: HET/BET next to the classic tables / next to an EMPTY classic hash table (every lookup has to go through
+        \* HET/BET) / without any classic table
+        classic |-> ~hetbet \/ (arch \div 8) % 3 # 2,
+        ghost   |-> hetbet /\ (arch \div 8) % 3 = 1,
+        hbits |-> Nth(<<64, 48, 64, 17, 32, 56>>, arch \div 8),    \* width of the name hash
+        hetroom |-> Nth(<<"x2", "full", "plus1", "x4">>, arch \div 16), \* entries of the HET array relative to the file count
+        iextra |-> Nth(<<0, 0, 3, 0, 1>>, arch \div 8),            \* unused extra bits per file index / per BET name hash / per BET field
+        hextra |-> Nth(<<0, 5, 0>>, arch \div 8),
+        slack |-> Nth(<<0, 2, 0, 1>>, arch \div 8),
+        tablecomp |-> Nth(<<"none", "zlib", "none", "bzip2">>, arch \div 8),   \* HET/BET table compression
         files |-> [slot \in 1..nf |-> FileOf(dir, q0 + slot - 1, slot - 1, arch, shift)] ]
 
 Archives(dir) ==
